@@ -424,7 +424,7 @@ pub fn g_enc_case(o: EncGenOpts) -> BoxedStrategy<EncCase> {
     };
     let empty = if o.allow_empty_list { (0u8..20).boxed() } else { Just(1u8).boxed() };
     (data, g_list(), modes, flags, eci, empty, any::<u8>())
-        .prop_map(|((data, stratum), list, modes, (macros, fnc1), eci, empty, fp)| {
+        .prop_map(move |((data, stratum), list, modes, (macros, fnc1), eci, empty, fp)| {
             // G-exact on a quarter of the non-macro cases (all Base256 length-boundary cases)
             let (data, stratum) = if !stratum.starts_with("macro") && (fp % 4 == 0 || stratum == "b256-length-boundary") && !data.is_empty() {
                 (fit_pad(&data, modes, fp / 4), exact_label(stratum))
@@ -440,6 +440,28 @@ pub fn g_enc_case(o: EncGenOpts) -> BoxedStrategy<EncCase> {
                     ListSpec::Mask(m) => m,
                     ListSpec::Fit(k) => resolve_fit(&data, modes, macros, fnc1, k),
                 }
+            };
+            // G-max: about 3 % of the cases are re-drawn as "as many characters as the largest listed
+            // symbol can possibly hold": digit pairs (the densest form, two characters per codeword)
+            // filling it exactly or ending 1..3 characters short, optionally with one non-digit.
+            // This is where the encoder's early capacity exits are decided.
+            let (data, stratum) = if fp % 32 == 5 && list != 0 && modes & 1 == 1 {
+                let big = (0..48).filter(|i| list >> i & 1 == 1).map(|i| SYMBOLS[i].data).max().unwrap_or(3);
+                if big <= 180 || !o.short_only {
+                    let header = (fnc1 as usize) + eci.map_or(0, |e| if e <= 126 { 2 } else if e <= 16382 { 3 } else { 4 });
+                    let room = big.saturating_sub(header);
+                    let k = (fp / 32) as usize % 5; // characters below the maximum (4: one above)
+                    let n = if k == 4 { 2 * room + 1 } else { (2 * room).saturating_sub(k) };
+                    let mut d: Vec<u8> = (0..n).map(|i| b'0' + ((i * 7 + fp as usize) % 10) as u8).collect();
+                    if fp & 0x40 != 0 && n > 2 {
+                        d[n / 2] = b'A';
+                    }
+                    (d, "max-digits")
+                } else {
+                    (data, stratum)
+                }
+            } else {
+                (data, stratum)
             };
             EncCase { data, list, modes, macros, fnc1, eci, stratum }
         })
